@@ -15,6 +15,7 @@ let () = each_line (fun l ->
   let t = toks_of_line c in
   let enc = word t in let n = num t in
   (match peek t with Some "SALT" -> ignore (word t); ignore (num t) | _ -> ());
+  let with_maps = (match peek t with Some "MAPS" -> ignore (word t); true | _ -> false) in
   let ops = times n (fun () ->
     expect t ";";
     let op = word t in
@@ -84,5 +85,5 @@ let () = each_line (fun l ->
     (if !fails = [] then "OK" else
        let labs = List.map (fun f -> List.hd (String.split_on_char '@' f)) (List.rev !fails) in
        "FAIL " ^ String.concat "," labs ^ " at " ^ String.concat "," (List.rev !fails))
-    ^ " " ^ enc ^ (if List.mem "isect_nonempty" !flags then " isect_nonempty" else "") ^ (if List.mem "truncated_large" !flags then " truncated_large" else "")
+    ^ " " ^ enc ^ (if List.mem "isect_nonempty" !flags then " isect_nonempty" else "") ^ (if List.mem "truncated_large" !flags then " truncated_large" else "") ^ (if with_maps then " with_maps" else "")
   | _ -> "FAIL exception " ^ o)
